@@ -43,6 +43,17 @@ pub fn c03_check<L: KeyboardLayout, O: CharOracle>(name: &str, l: &L, caps: bool
         mb.ralt = false;
         mb.lalt = false;
         let base = l.map_keycode(k, &mb, h);
+        // "in every modifier state that selects that level": if the key has a distinct AltGr character
+        // under plain AltGr, every other way of selecting the AltGr level must give the standard's
+        // AltGr character too (it may not silently fall back to the base level)
+        let canon = l.map_keycode(k, &level_mods(2), h);
+        let canon_base = l.map_keycode(k, &level_mods(0), h);
+        if canon != canon_base {
+            match out {
+                DecodedKey::Unicode(c) => assert!(O::ok(k, 2, c) == Some(true), "C03: a modifier state selecting the AltGr level does not give the key's AltGr character"),
+                DecodedKey::RawKey(_) => assert!(false, "C03: AltGr level turned a character key into a raw key"),
+            }
+        }
         if out != base {
             match out {
                 DecodedKey::Unicode(c) => {
@@ -150,7 +161,7 @@ macro_rules! c03_layout {
                 c03_check::<_, chars::$ty>(stringify!($ty), &$ty, true);
             }
             #[kani::proof]
-            pub fn c03_t_any() {
+            pub fn c03_q_any() {
                 c03_check::<_, chars::$ty>(concat!("AnyLayout::", stringify!($ty)), &AnyLayout::$ty($ty), true);
             }
             #[kani::proof]
@@ -162,7 +173,7 @@ macro_rules! c03_layout {
                 c03_e2e::<_, chars::$ty>(stringify!($ty), $ty, false);
             }
             #[kani::proof]
-            pub fn c03_t_anyref() {
+            pub fn c03_q_anyref() {
                 let a = AnyLayout::$ty($ty);
                 c03_check::<_, chars::$ty>(concat!("&AnyLayout::", stringify!($ty)), &&a, true);
             }
